@@ -241,6 +241,8 @@ func c07Cfgs(j int, r interface{ IntN(int) int }) c07Cfg {
 		cfg.file = c07Canary + "/zone.db" // whatever gets opened relative to the file lands in the canary directory
 	case cfg.fsMode == 0:
 		cfg.file = c07Allowed + "/zone.db" // includes enabled, no FS: os.Open is legitimate, in a directory of its own
+	default:
+		cfg.file = "zones/main.db" // includes enabled with an FS: the canary directory is reserved for parsers that must open nothing
 	}
 	return cfg
 }
